@@ -113,7 +113,10 @@ Proof.
   destruct ((mode =? 32) && (184 <=? b0) && (b0 <=? 191)).
   { do 4 (destruct c as [|? c]; [discriminate|]). cbn [app]. auto. }
   destruct (b0 =? 255).
-  { destruct c as [|? c]; [discriminate|]. cbn [app]. auto. }
+  { destruct c as [|m c]; [discriminate|]. cbn [app].
+    destruct ((Z.land m 248 =? 32) && negb (Z.land m 7 =? 4) && negb (Z.land m 7 =? 5)); [auto|].
+    destruct ((mode =? 64) && (m =? 37)); [|discriminate].
+    do 4 (destruct c as [|? c]; [discriminate|]). cbn [app]. auto. }
   destruct (b0 =? 233).
   { do 4 (destruct c as [|? c]; [discriminate|]). cbn [app]. auto. }
   discriminate.
@@ -274,11 +277,45 @@ Proof.
   split; [apply rel_target; assumption | split; reflexivity].
 Qed.
 
+(* JMP [RIP+0] ; .quad to  -- the far form of the trampoline return: lands on [to] itself, no register changes *)
+Lemma decode_jmp_rip0 r : decode 64 ([255; 37; 0; 0; 0; 0] ++ r) = Some (JmpRipInd 0, 6).
+Proof. reflexivity. Qed.
+
+Theorem abs_jump_rip_runs s to :
+  0 <= to < 2 ^ 64 -> 0 <= rip s -> rip s + 14 < 2 ^ 64 ->
+  code_at (mem s) (rip s) (abs_jump_rip to) ->
+  exists s', run 64 1 s = Some s' /\ rip s' = to /\ regs s' = regs s /\ mem s' = mem s.
+Proof.
+  intros Hto Hr0 Hr1 Hc. unfold abs_jump_rip in Hc.
+  pose proof Hc as Hc0. apply code_at_app in Hc as [Hc1 Hc2].
+  cbn [run].
+  rewrite (step_code 64 s _ _ _ Hc0 ltac:(rewrite app_length, bytes_le_length; cbn; lia) (decode_jmp_rip0 (bytes_le 8 to))).
+  eexists; split; [reflexivity|]. cbn [exec rip regs mem].
+  split; [|split; reflexivity].
+  replace (lenZ [255; 37; 0; 0; 0; 0]) with 6 in Hc2 by reflexivity.
+  rewrite Z.add_0_r, (wrapu_small 64 (rip s + 6)) by lia.
+  unfold memw. change (Z.to_nat (64 / 8)) with 8%nat.
+  unfold code_at in Hc2. rewrite bytes_le_length in Hc2. rewrite Hc2. apply le_bytes8. exact Hto.
+Qed.
+
 (* the form chosen for the trampoline's return jump is always one of the two *)
 Lemma origin_jump_forms from to :
   origin_jump from to = rel_jump from to /\ rel_fits from to = true \/
-  origin_jump from to = abs_jump_rdx to /\ rel_fits from to = false.
+  origin_jump from to = abs_jump_rip to /\ rel_fits from to = false.
 Proof. unfold origin_jump. destruct (rel_fits from to); auto. Qed.
 
-Lemma origin_jump_length from to : length (origin_jump from to) = 5%nat \/ length (origin_jump from to) = 12%nat.
+Lemma origin_jump_length from to : length (origin_jump from to) = 5%nat \/ length (origin_jump from to) = 14%nat.
 Proof. unfold origin_jump. destruct (rel_fits from to); [left | right]; reflexivity. Qed.
+
+(* before the repair F15b the far form was the function-value form: control went to the bytes STORED at [to] *)
+Lemma origin_jump_pre_repair_refuted :
+  exists to s, rel_fits (rip s) to = false /\ code_at (mem s) (rip s) (origin_jump_pre_repair (rip s) to) /\
+    forall s', run 64 2 s = Some s' -> rip s' <> to /\ regs s' RDX <> regs s RDX.
+Proof.
+  set (to := 2 ^ 40).
+  set (code := abs_jump_rdx to).
+  set (m := fun a => if (4096 <=? a) && (a <? 4096 + 12) then nth (Z.to_nat (a - 4096)) code 0 else 0).
+  exists to, {| rip := 4096; regs := fun _ => 7; mem := m |}.
+  split; [vm_compute; reflexivity|]. split; [vm_compute; reflexivity|].
+  intros s' H. vm_compute in H. inversion H; subst s'. cbn. split; discriminate.
+Qed.
